@@ -23,7 +23,7 @@ from harness import vsign, dmt
 def build_vd(eng, ns, R=2, M=1, N=1, junk=True, thr_kinds=('int',), modes=(True, False), name_any=False, Loh=2, u_timestamp=False):
     t = T(eng, ns=ns)
     Td = dmt.dm_template(t, 'T', R=R, M=M, thr_kinds=thr_kinds)
-    Ud = dmt.dm_template(t, 'U', R=1, M=1, optional_delegations=True, extra_field=u_timestamp)
+    Ud = dmt.dm_template(t, 'U', R=1, M=1, optional_delegations=True, extra_field=u_timestamp, optional_version=u_timestamp)
     sigs, real = vsign.make_sigs(t, N, Loh=Loh, junk=junk)
     Tm = {'signatures': {}, 'signed': Td['signed']}
     Um = {'signatures': sigs, 'signed': Ud['signed']}
